@@ -126,10 +126,24 @@ def replay_case(arg):
                     fail('UniqueDefault', 'duplicate_names', dict(names=wid))
             # a vector of the reported length is accepted and the gradient has that length
             shim = dict(rec, fixed=sorted(rec['fixed']))
-            vals = draw_values(shim, rng)
-            x = np.array([vals[tuple(s)] for s in rec['layout']], dtype=float)
             fixed_vals = {tuple(rec['topfull'][k - 1]): 1.0 for k in rec['fixed']}
             ref = Reference(shim, [(np.array([0.5, 1.5]), np.asarray(l._observations[0])) for l in lls], covs, fixed_vals)
+            # a point INSIDE the support: with parameters fixed at 1 a non-centred dimension can put an individual's noise scale
+            # at (or below) zero for an unlucky eta -- such draws are replaced (they say nothing about the counts)
+            for attempt in range(20):
+                vals = draw_values(shim, rng)
+                x = np.array([vals[tuple(s)] for s in rec['layout']], dtype=float)
+                with warnings.catch_warnings():
+                    warnings.simplefilter('ignore')
+                    try:
+                        inside = bool(np.isfinite(interp.value(ref, x)))
+                    except Exception:
+                        inside = False
+                if inside:
+                    break
+            else:
+                cnt['no_point_inside_the_support'] = 1
+                return fails, cnt
             v = hll(x)
             s, g = hll.evaluateS1(x)
             cnt['evaluations'] = 2
